@@ -681,7 +681,7 @@ RULE_C14 = (
 
 def run_c14(chk: Check) -> None:
     quick = chk.tier == "quick"
-    n_free, n_fault, max_ops = (192, 128, 14) if quick else (3000, 2000, 40)
+    n_free, n_fault, max_ops = (192, 128, 14) if quick else (1200, 800, 32)
     n_free = int(os.environ.get("SIM_N_FREE", n_free))
     n_fault = int(os.environ.get("SIM_N_FAULT", n_fault))
     chk.reference_phase()
@@ -716,7 +716,7 @@ RULE_C12 = (
 
 def run_c12(chk: Check) -> None:
     quick = chk.tier == "quick"
-    n_free, n_fault, max_ops = (160, 96, 16) if quick else (2500, 1500, 40)
+    n_free, n_fault, max_ops = (160, 96, 16) if quick else (1000, 600, 32)
     n_free = int(os.environ.get("SIM_N_FREE", n_free))
     n_fault = int(os.environ.get("SIM_N_FAULT", n_fault))
     chk.reference_phase()
